@@ -135,6 +135,16 @@ class Pong(typing.NamedTuple):
 @dataclasses.dataclass
 class Stamp:
     on: datetime.date
+import typing_extensions
+class ExtTD(typing_extensions.TypedDict):
+    # declared through the backport (NotRequired / ReadOnly on older Pythons): still a TypedDict, fields marshalled by their types
+    name: str
+    level: Level
+    amount: decimal.Decimal
+    when: datetime.date
+    tags: typing.List[str]
+    counts: typing.Dict[str, int]
+    note: typing_extensions.NotRequired[str]
 @dataclasses.dataclass
 class Envelope:
     kind: str
@@ -165,6 +175,9 @@ SUB_CASES = [
     ("typing.Optional[Ping]", "Ping()"), ("typing.Union[Ping, datetime.date]", "datetime.date(2024, 2, 29)"),
     ("typing.Union[Ping, Stamp]", "Ping()"),
     ("Envelope", "Envelope('ping', Ping(), datetime.date(2024, 2, 29), [Ping()])"),
+    ("ExtTD", "{'name': 'w', 'level': Level.HIGH, 'amount': decimal.Decimal('12.50'), 'when': datetime.date(2024, 2, 29), 'tags': ['a'], "
+              "'counts': collections.OrderedDict(x=1)}"),
+    ("list[ExtTD]", "[{'name': S('w'), 'level': Level.LOW, 'amount': MyDec('1'), 'when': datetime.date(2024, 2, 29), 'tags': MyList(['a']), 'counts': {}}]"),
 ]
 
 
